@@ -26,6 +26,12 @@ type Case struct {
 	WS         bool            `json:"ws,omitempty"`          // serve over the graphql-ws WebSocket subprotocol (graphqlws.go)
 	Events     int             `json:"events,omitempty"`      // WS subscriptions: number of source events
 	Over       map[string]Spec `json:"over,omitempty"`
+	// Cancellation of the request's context as an event of the history (cancel.go). At most one of
+	// CancelAt / CancelRound is set.
+	CancelAt    int    `json:"cancel_at,omitempty"`    // inside the n-th resolver call (1-based), before it reaches a helper: the task starts on a cancelled context
+	CancelRound int    `json:"cancel_round,omitempty"` // at the n-th idle point, see CancelMode
+	CancelMode  string `json:"cancel_mode,omitempty"`  // before-release | after-pre (bodies returned, nothing received yet) | inside (the handler is blocked; races with the post gates)
+	CancelSrc   string `json:"cancel_src,omitempty"`   // "" = the HTTP request's context (client went away) | WS: close-hijacked | terminate | client-close | stop (subscription's source stream only)
 	// WatchdogMs: the request is declared deadlocked after this long (0 = default 20 s).
 	WatchdogMs int    `json:"watchdog_ms,omitempty"`
 	Note       string `json:"note,omitempty"`
